@@ -116,6 +116,8 @@ package jrpc2
 //@   ensures[C06:at-most-once] handlerRuns == old(handlerRuns) || handlerRuns == old(handlerRuns) + 1
 //@   ensures[C06:cancelled-waiter] handlerRuns == old(handlerRuns) ==> result0 == nil && result1 != nil
 //@   ensures[C14:valid-error] validErr(result1)
+//@   ensures[C01:notification-error-discarded] called("call.h#1") && req.id == nil && callres("call.h#1", 1, "error") != nil ==> result0 == nil && result1 == nil
+//@   ensures[C14:call-error-kept] called("call.h#1") && req.id != nil && callres("call.h#1", 1, "error") != nil ==> result0 == nil && result1 == callres("call.h#1", 1, "error")
 
 // Handler values are invoked only by Server.invoke (and, on the client side,
 // by the OnCallback adapter), so the semaphore bracket covers every handler
@@ -223,6 +225,11 @@ package jrpc2
 //@ pure idKey(b Slice) Str = (len(b) == 4 && b[0] == 'n' && b[1] == 'u' && b[2] == 'l' && b[3] == 'l') ? "" : str(b)
 //@ chaninv *jmessage msg != nil && idKey(msg.ID) == slotId(ch)
 
+// idsIssued(s): ghost - how many callback ids s has ever handed to a context
+// watcher. It only grows (it is ghost: no code can decrement it), and the
+// counter is always one ahead of it, so an id is never issued twice.
+//@ ghost idsIssued(Int) Int
+
 // slotOpen(r): r's one-slot delivery channel has not been written or closed.
 //@ pure slotOpen(r *Response) Bool = r != nil && r.cancel != nil && r.ch != nil && chantyped(r.ch) && !chanclosed(r.ch) && chanlen(r.ch) == 0 && chancap(r.ch) == 1 && chansends(r.ch) == 0
 
@@ -234,15 +241,15 @@ package jrpc2
 //@ globalinv rpcErrorsCount != nil && rpcRequestsCount != nil && bytesReadCount != nil && bytesWrittenCount != nil && rpcCallsPushed != nil && rpcNotificationsPushed != nil && serversActiveGauge != nil && serverMetrics != nil
 
 //@ monitor Server.mu owner s
-//@   guards s.err, s.ch, map(s.used), map(s.call), s.callID, qlen(fieldaddr(s, inq))
+//@   guards s.err, s.ch, map(s.used), map(s.call), s.callID, qlen(fieldaddr(s, inq)), idsIssued(s)
 //@   invariant[C08:M1] s.ch != nil ==> s.work != nil && !chanclosed(s.work)
 //@   invariant[C08:M2] s.ch == nil && s.work != nil ==> s.err != nil
 //@   invariant[C07:M4] forall(k string, in(s.used, k) ==> lookup(s.used, k) != nil && k != "" && allocated(lookup(s.used, k)))
 //@   invariant[C09:M3] forall(k string, in(s.call, k) ==> slotOpen(lookup(s.call, k)) && lookup(s.call, k).id == k && slotId(lookup(s.call, k).ch) == k && !(len(k) == 4 && k[0] == 'n' && k[1] == 'u' && k[2] == 'l' && k[3] == 'l') && k != "")
 //@   invariant[C09:M3-distinct] forall(k1 string, k2 string, in(s.call, k1) && in(s.call, k2) && k1 != k2 ==> lookup(s.call, k1).ch != lookup(s.call, k2).ch)
 //@   invariant[C08:Q] qlen(fieldaddr(s, inq)) >= 0
-//@   invariant[C09:ids-positive] s.callID >= 1
-//@   invariant2[C09:ids-grow] s.callID >= old(s.callID)
+//@   invariant[C09:ids-never-reissued] s.callID == idsIssued(s) + 1
+//@   invariant2[C09:ids-grow] s.callID >= old(s.callID) && idsIssued(s) >= old(idsIssued(s))
 //@   invariant[C09:ids-fresh] forall(n Int, n >= s.callID ==> !in(s.call, itoa(n)))
 
 //@ immutable Server.mux Server.sem Server.allowP Server.log Server.rpcLog Server.newctx Server.builtin Server.mu Server.used Server.call
@@ -347,10 +354,12 @@ package jrpc2
 
 //@ func NewServer
 //@   maypanic
+//@   modifies idsIssued
 //@   fresh result
 //@   ensures[C08:wellformed] wfServer(result) && result.ch == nil && result.err == nil
 //@   ensures[C06:capacity] semCap(result.sem) >= 1 && (opts != nil && opts.Concurrency >= 1 ==> semCap(result.sem) == opts.Concurrency)
 //@   ensures forall(k string, !in(result.used, k) && !in(result.call, k))
+//@   at return#1 ghostset idsIssued(s) = 0
 
 // Start: panics (documented) if the server is running; otherwise installs the
 // channel, resets the error and the wake-up channel, and starts exactly one
@@ -594,6 +603,7 @@ package jrpc2
 //@   at call.encode#1 assert[C10:send-under-lock] held(s.mu)
 //@   at call.encode#1 assert[C09:connected] s.ch != nil
 //@   at go.waitCallback#1 ghostset slotId(rsp.ch) = id
+//@   at go.waitCallback#1 ghostset idsIssued(s) = idsIssued(s) + 1
 //@   at call.FormatInt#1 assume[the callback id counter does not wrap: fewer than 2^62 callbacks per server] s.callID < 4611686018427387904
 //@   ensures[C09:unlocked] !held(s.mu)
 //@   ensures[C09:closed-no-send] !called("call.encode#1") ==> rsp == nil && forall(c Iface, chSends(c) == old(chSends(c)))
@@ -656,3 +666,145 @@ package jrpc2
 //@ census[C01] invoke-only-by-dispatcher: calls (*Server).invoke only-in (*Server).dispatchLocked$1 (*Server).dispatchLocked$1$1
 //@ census[C09] replies-intercepted-in-reader: calls (*Server).filterBatchLocked only-in (*Server).read
 //@ census[C07] cancel-funcs-fired-only-by: calls (*Server).cancelLocked only-in (*Server).deliver (*Server).stopLocked$1 (*Server).checkAndAssignLocked
+
+// ---------------------------------------------------------------------------
+// Client (C04 C05 C10)
+// ---------------------------------------------------------------------------
+
+//@ pure wfClient(c *Client) Bool = c != nil && c.done != nil && c.log != nil && c.shook != nil && c.cbctx != nil && c.cbcancel != nil && c.pending != nil
+
+// reqsIssued(c): ghost - how many request ids the client has ever allocated
+// (the counter is always one ahead; ids are never allocated twice).
+//@ ghost reqsIssued(Int) Int
+
+//@ monitor Client.mu owner c
+//@   guards c.ch, c.err, map(c.pending), c.nextID, reqsIssued(c)
+//@   invariant[C05:K1] (c.ch == nil) == (c.err != nil)
+//@   invariant[C04:K2] forall(k string, in(c.pending, k) ==> slotOpen(lookup(c.pending, k)) && lookup(c.pending, k).id == k && slotId(lookup(c.pending, k).ch) == k && !(len(k) == 4 && k[0] == 'n' && k[1] == 'u' && k[2] == 'l' && k[3] == 'l') && k != "")
+//@   invariant[C04:K2-distinct] forall(k1 string, k2 string, in(c.pending, k1) && in(c.pending, k2) && k1 != k2 ==> lookup(c.pending, k1).ch != lookup(c.pending, k2).ch)
+//@   invariant[C04:ids-never-reissued] c.nextID == reqsIssued(c) + 1
+//@   invariant2[C04:ids-grow] c.nextID >= old(c.nextID) && reqsIssued(c) >= old(reqsIssued(c))
+
+//@ immutable Client.done Client.log Client.snote Client.scall Client.chook Client.shook Client.cbctx Client.cbcancel Client.pending
+
+//@ role field Client.snote
+//@ role field Client.scall
+//@ role field Client.cbcancel
+//@   modifies fired(self)
+//@   ensures fired(self)
+
+// hookCalls: per thread, invocations of the OnCancel hook; stopHooks: of OnStop.
+//@ tlghost hookCalls Int
+//@ tlghost stopHooks Int
+//@ role field Client.chook
+//@   modifies hookCalls
+//@   ensures hookCalls == old(hookCalls) + 1
+//@ role field Client.shook
+//@   modifies stopHooks
+//@   ensures stopHooks == old(stopHooks) + 1
+
+// newPending: a fresh open slot made for this id.
+//@ func newPending
+//@   requires ctx != nil
+//@   modifies slotId
+//@   fresh result1
+//@   at return#1 ghostset slotId(result1.ch) = id
+//@   ensures result0 != nil && slotOpen(result1) && result1.id == id && slotId(result1.ch) == id && isnew(result1) && isnew(result1.ch)
+
+// The goroutine that runs one server callback and sends its reply: pays its
+// Done; sends only under the lock and only while the client is not stopped.
+//@ func (*Client).handleRequestLocked$1
+//@   root
+//@   transfer wgDebt(c.done), 1
+//@   captures wfClient(c) && c.scall != nil && msg != nil && ctx != nil
+//@   requires !held(fieldaddr(c, mu))
+//@   modifies monitor(Client, c), held(fieldaddr(c, mu)), wgDebt(c.done), chSends
+//@   at call.Send#1 assert[C10:send-under-lock] held(fieldaddr(c, mu))
+//@   at call.Send#1 assert[C05:not-after-stop] c.err == nil && c.ch != nil
+//@   ensures[C05:done-paid] wgDebt(c.done) == 0 && !held(fieldaddr(c, mu))
+
+// deliverLocked: a request-shaped message goes to the callback machinery and
+// leaves the pending table alone; a reply whose id is not pending is
+// discarded; otherwise the entry is removed BEFORE the single write to its
+// slot, and no other entry is touched.
+//@ func (*Client).deliverLocked
+//@   requires wfClient(c) && held(fieldaddr(c, mu)) && Client_mu_inv(c) && rsp != nil
+//@   modifies map(c.pending), wgDebt(c.done)
+//@   ensures[C04:inv] Client_mu_inv(c)
+//@   ensures[C04:request-shaped] reqShaped(rsp) ==> forall(k string, in(c.pending, k) == old(in(c.pending, k)) && lookup(c.pending, k) == old(lookup(c.pending, k)))
+//@   ensures[C04:matched-removed] !reqShaped(rsp) ==> !in(c.pending, idKey(rsp.ID))
+//@   ensures[C04:others-untouched] forall(k string, k != idKey(rsp.ID) ==> in(c.pending, k) == old(in(c.pending, k)) && lookup(c.pending, k) == old(lookup(c.pending, k)))
+//@   ensures[C05:debts] wgDebt(c.done) == old(wgDebt(c.done))
+
+// req: allocates the next id under the lock; the counter only grows.
+//@ func (*Client).req
+//@   requires wfClient(c) && !held(fieldaddr(c, mu)) && ctx != nil
+//@   modifies monitor(Client, c), held(fieldaddr(c, mu))
+//@   at call.FormatInt#1 assume[the request id counter does not wrap: fewer than 2^62 requests per client] c.nextID < 4611686018427387904
+//@   at defer.Unlock#1 ghostset reqsIssued(c) = reqsIssued(c) + 1
+//@   ensures[C04:unlocked] !held(fieldaddr(c, mu))
+//@   ensures[C04:has-id] result1 == nil ==> result0 != nil && len(result0.ID) > 0 && result0.M == method && !(len(result0.ID) == 4 && result0.ID[0] == 'n')
+//@   ensures result1 != nil ==> result0 == nil
+
+//@ func (*Client).note
+//@   requires wfClient(c) && ctx != nil
+//@   ensures[C04:no-id] result1 == nil ==> result0 != nil && result0.ID == nil && result0.M == method
+//@   ensures result1 != nil ==> result0 == nil
+
+// send: nothing is transmitted once the client has stopped; the one Send
+// happens under the lock; pending entries are filed only after a successful
+// Send, each under its own id, in request order, one per request with an id.
+//@ func (*Client).send
+//@   requires wfClient(c) && !held(fieldaddr(c, mu)) && ctx != nil && forall(i int, 0 <= i && i < len(reqs) ==> reqs[i] != nil && !(len(reqs[i].ID) == 4 && reqs[i].ID[0] == 'n'))
+//@   modifies monitor(Client, c), held(fieldaddr(c, mu)), chSends, slotId
+//@   at call.Send#1 assert[C10:send-under-lock] held(fieldaddr(c, mu))
+//@   at call.Send#1 assert[C05:stopped-no-transmit] c.err == nil && c.ch != nil
+//@   ensures[C04:unlocked] !held(fieldaddr(c, mu))
+//@   ensures[C04:pends] result1 == nil ==> len(result0) <= len(reqs) && forall(i int, 0 <= i && i < len(result0) ==> result0[i] != nil && result0[i].ch != nil && result0[i].cancel != nil && slotId(result0[i].ch) == result0[i].id)
+//@   ensures[C05:error-no-pending] result1 != nil ==> result0 == nil
+//@   ensures[C05:stopped-fails] !called("call.Send#1") ==> result1 != nil && forall(ch Iface, chSends(ch) == old(chSends(ch)))
+//@   loop 1 invariant len(pends) == len(pctxs) && len(pends) <= rangeindex + 1
+//@   loop 1 invariant forall(i int, 0 <= i && i < len(pends) ==> pends[i] != nil && isnew(pends[i]) && slotOpen(pends[i]) && slotId(pends[i].ch) == pends[i].id && pends[i].id != "" && !(len(pends[i].id) == 4 && pends[i].id[0] == 'n') && isnew(pends[i].ch) && pctxs[i] != nil)
+//@   loop 1 invariant forall(i1 int, i2 int, 0 <= i1 && i1 < i2 && i2 < len(pends) ==> pends[i1].ch != pends[i2].ch && pends[i1] != pends[i2])
+//@   loop 2 invariant held(fieldaddr(c, mu)) && Client_mu_inv(c) && c.nextID >= atlock(c.nextID) && reqsIssued(c) >= atlock(reqsIssued(c))
+
+// waitComplete: when the context ends, completes the request only if its entry
+// is still pending (removed first, then the single slot write, whose error is
+// non-nil); the OnCancel hook runs - outside the lock - iff that happened.
+//@ func (*Client).waitComplete
+//@   requires wfClient(c) && !held(fieldaddr(c, mu)) && pctx != nil && p != nil
+//@   stable in(c.pending, id) ==> lookup(c.pending, id) == p
+//@   modifies monitor(Client, c), held(fieldaddr(c, mu)), hookCalls, p.err, p.result, fired
+//@   at call.Error#1 assume[context.Context: Err is non-nil once Done is closed] err != nil
+//@   ensures[C05:unlocked] !held(fieldaddr(c, mu))
+
+// stopLocked: idempotent; closes the channel once, cancels callbacks and every
+// pending request, records the FIRST cause; returns the OnStop thunk.
+//@ pure isStopThunk(f Int) Bool = iscode(f, "(*Client).stopLocked$2")
+//@ func (*Client).stopLocked
+//@   requires wfClient(c) && held(fieldaddr(c, mu)) && Client_mu_inv(c) && err != nil
+//@   modifies c.ch, c.err, fired, chCloses(c.ch)
+//@   fresh result
+//@   ensures[C05:stopped] c.ch == nil && c.err != nil && result != nil
+//@   ensures[C05:first-cause] old(c.ch) != nil ==> c.err == err && isStopThunk(result)
+//@   ensures[C05:idempotent] old(c.ch) == nil ==> c.err == old(c.err) && !isStopThunk(result) && forall(f Int, fired(f) == old(fired(f)))
+//@   ensures[C10:one-close] old(c.ch) != nil ==> chCloses(old(c.ch)) == old(chCloses(old(c.ch))) + 1
+//@   ensures[C10:no-second-close] old(c.ch) == nil ==> forall(x Iface, chCloses(x) == old(chCloses(x)))
+//@   ensures[C05:inv] Client_mu_inv(c)
+//@   at call.Close#1 assert[C10:close-under-lock] held(fieldaddr(c, mu))
+//@   loop 1 invariant forall(k string, in(c.pending, k) ==> slotOpen(lookup(c.pending, k)))
+
+// The thunk returned by stopLocked: calls OnStop exactly when it is the real one.
+//@ role result stopLocked.0
+//@   modifies stopHooks
+//@   ensures stopHooks == old(stopHooks) + (isStopThunk(self) ? 1 : 0)
+
+// Wire encoding summaries (verified under C13): toJSON reads its receiver only.
+//@ func (jmessages).toJSON
+//@   requires forall(i int, 0 <= i && i < len(j) ==> j[i] != nil)
+//@   fresh result0
+//@   ensures result1 == nil ==> len(result0) > 0
+//@ func (*jmessage).toJSON
+//@   requires j != nil
+//@   fresh result0
+//@   ensures result1 == nil ==> len(result0) > 0
